@@ -6,6 +6,13 @@ pub mod c03;
 pub mod c04;
 pub mod c05;
 pub mod c06;
+pub mod c07;
+pub mod c08;
+pub mod c09;
+pub mod c10;
+pub mod c11;
+pub mod c12;
+pub mod c15;
 pub mod c13;
 pub mod c14;
 
@@ -19,6 +26,13 @@ pub fn get(id: &str) -> Option<Box<dyn Prop>> {
         "C04" => Box::new(c04::C04),
         "C05" => Box::new(c05::C05),
         "C06" => Box::new(c06::C06),
+        "C07" => Box::new(c07::C07),
+        "C08" => Box::new(c08::C08),
+        "C09" => Box::new(c09::C09),
+        "C10" => Box::new(c10::C10),
+        "C11" => Box::new(c11::C11),
+        "C12" => Box::new(c12::C12),
+        "C15" => Box::new(c15::C15),
         "C13" => Box::new(c13::C13),
         "C14" => Box::new(c14::C14),
         _ => return None,
